@@ -511,7 +511,7 @@ fn tcp_cases(tier: Tier) -> Vec<TcpCase> {
 }
 
 fn tcp_profile() -> ChoiceProfile {
-    ChoiceProfile { read_faults: vec![FdClass::Front, FdClass::Back], write_faults: vec![FdClass::Front, FdClass::Back], max_points_per_class: 5, event_order: true }
+    ChoiceProfile { read_faults: vec![FdClass::Front, FdClass::Back], write_faults: vec![FdClass::Front, FdClass::Back], max_points_per_class: 5, event_order: true, ..Default::default() }
 }
 
 pub fn run_item(tier: Tier, item: usize) -> ItemResult {
